@@ -25,7 +25,18 @@ def gen_cases(rng, tier):
         r = i % 8
         if r < 4:
             a = gens.hist(rng, max_faces=5, frac_p=0.1)
-            v = rng.choice(["scaled", "padded", "both", "perturbed", "other", "same", "twin"])
+            v = rng.choice(["scaled", "padded", "both", "perturbed", "other", "same", "twin", "hashtwin"])
+            if v == "hashtwin":
+                # UNEQUAL histograms whose items hash alike in CPython (hash(-1) == hash(-2); hash(x) == hash(x + 2**61 - 1)):
+                # == and != must still be decided by the items, whatever the hashes say
+                m = 2 ** 61 - 1
+                outs_a, outs_b = rng.choice([([-1], [-2]), ([-2, -1], [-2, -1]), ([-1, 0, 3], [-2, 0, 3]), ([0, 1], [m, m + 1]), ([0], [m])])
+                cs = [rng.choice([1, 2, 3]) for _ in outs_a]
+                a = [[gens.q(o), c] for o, c in zip(outs_a, cs)]
+                if outs_a == outs_b:
+                    cs = list(reversed(cs)) if cs != list(reversed(cs)) else [cs[0] + 1] + cs[1:]
+                cases.append({"kind": "eq", "a": a, "b": [[gens.q(o), c] for o, c in zip(outs_b, cs)], "variant": v, "types": None})
+                continue
             b = [list(x) for x in a]
             if v in ("scaled", "both"):
                 k = rng.choice([2, 3, 7, 2 ** 40])
